@@ -208,6 +208,11 @@ func (w *World) faultFor(c Call) error {
 	return nil
 }
 
+// clusterScoped lists the cluster-scoped kinds Karpenter touches.
+var clusterScoped = map[string]bool{"Node": true, "NodeClaim": true, "NodePool": true, "TestNodeClass": true, "PersistentVolume": true,
+	"StorageClass": true, "CSINode": true, "VolumeAttachment": true, "PriorityClass": true, "Namespace": true, "NodeOverlay": true,
+	"ResourceSlice": true, "DeviceClass": true, "CSIDriver": true}
+
 func kindOf(o any) string {
 	switch o.(type) {
 	case *v1.NodeClaim, *v1.NodeClaimList:
@@ -342,6 +347,11 @@ func (w *World) nextUID(prefix string) types.UID {
 func (w *World) funcs() interceptor.Funcs {
 	return interceptor.Funcs{
 		Get: func(ctx context.Context, c client.WithWatch, key client.ObjectKey, obj client.Object, opts ...client.GetOption) error {
+			// a real client drops the namespace of a cluster-scoped kind; the fake tracker keys by namespace
+			// (Karpenter e.g. Gets a PersistentVolume with the pod's namespace in the key)
+			if clusterScoped[kindOf(obj)] {
+				key.Namespace = ""
+			}
 			return w.read(ctx, Call{Verb: "get", Kind: kindOf(obj), Name: key.Name}, func() error { return c.Get(ctx, key, obj, opts...) })
 		},
 		List: func(ctx context.Context, c client.WithWatch, list client.ObjectList, opts ...client.ListOption) error {
